@@ -61,6 +61,26 @@ impl<K: Copy + PartialEq, V> HashMap<K, V> {
             _ => None,
         }
     }
+    pub fn get_mut(&mut self, k: &K) -> Option<&mut V> {
+        match self.slot(k) {
+            0 => self.v0.as_mut(),
+            1 => self.v1.as_mut(),
+            _ => None,
+        }
+    }
+    pub fn remove(&mut self, k: &K) -> Option<V> {
+        match self.slot(k) {
+            0 => {
+                self.k0 = None;
+                self.v0.take()
+            }
+            1 => {
+                self.k1 = None;
+                self.v1.take()
+            }
+            _ => None,
+        }
+    }
     pub fn contains_key(&self, k: &K) -> bool {
         self.slot(k) <= 1
     }
